@@ -152,6 +152,23 @@ def run(job):
     except QuantityError:
         job.case("construct/unit-of-other-type", "", True)
 
+    # a text of another type parsed through a type, with or without an explicit
+    # unit: parsing-then-converting raises QuantityError, so does the one-step form
+    for cls_, txt, tgt in ((P.Mass, "3000 mm", P.METRE), (P.Mass, "3000 mm", P.KILOMETRE),
+                           (P.Length, "5 kg", P.GRAM), (P.Duration, "2 km", P.METRE),
+                           (P.Mass, "3000 mm", P.KILOGRAM), (P.Length, "5 kg", P.METRE)):
+        outcomes = []
+        for fn in (lambda: cls_(txt, tgt), lambda: cls_(txt).convert(tgt)):
+            try:
+                outcomes.append(repr(fn()))
+            except QuantityError:
+                outcomes.append("QuantityError")
+            except Exception as e:
+                outcomes.append(repr(e))
+        job.case("text/parse-other-type-with-unit", (cls_.__name__, txt, tgt.symbol),
+                 outcomes[0] == outcomes[1] == "QuantityError",
+                 outcomes[0], outcomes[1])
+
     # parse-with-explicit-unit == parse-then-convert under the converters that
     # are active *now* (registered, replaced, removed between the parses)
     if not job.shard:
